@@ -51,6 +51,61 @@ theorem TS.notSplice {G : String → Prop} {e : Expr} (h : TS G e) : isSplice e 
       simp at heq
     · rfl
 
+/-- a call form (its compiled slot is a fresh register, never a constant: `janetc_if` takes the jump path, not the
+    constant-condition folding) -/
+def IsCall (e : Expr) : Prop := ∃ f args q, e = .form (.sym f :: args) q ∧ specials.contains f = false
+
+/-- the core fragment (session 4, second part): calls of global core functions with any number of arguments, and — when the
+    switch `b` is on — `if` -/
+inductive TF (G : String → Prop) (b : Bool) : Expr → Prop
+  | lit (v : Value) : SimpleLit v → TF G b (.lit v)
+  | sym (x : String) : TF G b (.sym x)
+  | call (f : String) (args : List Expr) (p : Pos) : specials.contains f = false → f ≠ "apply" → G f → (∀ a, a ∈ args → TF G b a) →
+      TF G b (.form (.sym f :: args) p)
+  | doo (body : List Expr) (p : Pos) : (∀ e, e ∈ body → TF G b e) → TF G b (.form (.sym "do" :: body) p)
+  | deff (x : String) (v : Expr) (p : Pos) : ¬ G x → TF G b v → TF G b (.form [.sym "def", .sym x, v] p)
+  | ups (body : List Expr) (p : Pos) : (∀ e, e ∈ body → TF G b e) → TF G b (.form (.sym "upscope" :: body) p)
+  | iff (cnd tb : Expr) (rest : List Expr) (p : Pos) : b = true → IsCall cnd → rest.length ≤ 1 → TF G b cnd → TF G b tb → (∀ e, e ∈ rest → TF G b e) →
+      TF G b (.form (.sym "if" :: cnd :: tb :: rest) p)
+
+theorem TF.notSplice {G : String → Prop} {b : Bool} {e : Expr} (h : TF G b e) : isSplice e = none := by
+  cases h with
+  | lit v hv => rfl
+  | sym x => rfl
+  | call f args p h1 h2 h3 h4 =>
+    simp only [isSplice]
+    split
+    · rename_i x _ heq
+      simp only [Expr.form.injEq, List.cons.injEq, Expr.sym.injEq] at heq
+      obtain ⟨⟨hf, _⟩, _⟩ := heq
+      subst hf
+      simp [specials] at h1
+    · rfl
+  | doo body p _ =>
+    simp only [isSplice]
+    split
+    · rename_i x _ heq
+      simp at heq
+    · rfl
+  | deff x v p _ _ =>
+    simp only [isSplice]
+    split
+    · rename_i x _ heq
+      simp at heq
+    · rfl
+  | ups body p _ =>
+    simp only [isSplice]
+    split
+    · rename_i x _ heq
+      simp at heq
+    · rfl
+  | iff cnd tb rest p _ _ _ _ _ _ =>
+    simp only [isSplice]
+    split
+    · rename_i x _ heq
+      simp at heq
+    · rfl
+
 /-- compile-time part of the invariant: a name is either unknown to both sides, or a named near local whose register is
     allocated and whose box exists; names used as global functions are unknown -/
 def EnvS (G : String → Prop) (scs : List Scope) (env : Env) (nb : Nat) (ra : RA) : Prop :=
@@ -65,6 +120,19 @@ def EnvD (scs : List Scope) (env : Env) (s : SS) (regs : Array Value) : Prop :=
 
 /-- no resolvable name lives in register `d` -/
 def NoName (scs : List Scope) (d : Nat) : Prop := ∀ x slot u l, lk scs x = some (slot, u, l) → slot.k ≠ .loc d
+
+theorem NoName.of_lk {scs scs' : List Scope} {d : Nat} (h : NoName scs d) (hlk : ∀ x, lk scs' x = lk scs x) : NoName scs' d := by
+  intro x slot u l hx; rw [hlk] at hx; exact h x slot u l hx
+
+/-- names and registers across a compiled form: a register that was allocated at entry and carried no name carries none at exit;
+    a named result slot whose register was allocated at entry had a visible name at entry -/
+def NameFrame (sc : Scope) (scs scs' : List Scope) (slot : JSlot) : Prop :=
+  (∀ d, sc.ra.alloc d = true → NoName scs d → NoName scs' d) ∧
+  (∀ r, slot.named = true → slot.k = .loc r → sc.ra.alloc r = true → ¬ NoName scs r)
+
+theorem NameFrame.of_lk {sc : Scope} {scs scs' : List Scope} {slot : JSlot} (hlk : ∀ x, lk scs' x = lk scs x) (hn : slot.named = false) :
+    NameFrame sc scs scs' slot :=
+  ⟨fun _ _ h => h.of_lk hlk, fun _ h => by rw [hn] at h; exact absurd h (by simp)⟩
 
 /-- what is known about the slot a form compiles to: a constant; a named local (allocated at exit); or an unnamed register
     that was free at entry, is allocated at exit and carries no name -/
@@ -123,27 +191,39 @@ section
 variable (p : Program) (f0 : Frame) (rest : List Frame) (V : Array Value) (P : List KConst)
 
 /-- the statement of compile correctness for one form of the statement fragment -/
-def Correct2 (G : String → Prop) (c c' : CState) (slot : JSlot) (sc : Scope) (rs : List Scope) (pool : List KConst) (ps : List (List KConst))
-    (env env' : Env) (s s' : SS) (v : Value) : Prop :=
+def Correct2 (G : String → Prop) (dr : Bool) (c c' : CState) (slot : JSlot) (sc : Scope) (rs : List Scope) (pool : List KConst)
+    (ps : List (List KConst)) (env env' : Env) (s s' : SS) (v : Value) : Prop :=
   ∃ (ra' : RA) (nsyms : List SymPair) (more : List KConst) (seg : List CI) (segm : List Pos),
     c' = { c with scopes := { sc with ra := ra', syms := sc.syms ++ nsyms } :: rs, pools := (pool ++ more) :: ps, buf := c.buf ++ seg,
                   map := c.map ++ segm, vals := c'.vals } ∧
     PrefA c.vals c'.vals ∧ (∀ r, sc.ra.alloc r = true → ra'.alloc r = true) ∧ sc.ra.max ≤ ra'.max ∧
     SlotOK2 sc ra' c'.scopes c'.vals slot ∧ PrefA s.boxes s'.boxes ∧ EnvS G c'.scopes env' s'.boxes.size ra' ∧
+    NameFrame sc c.scopes c'.scopes slot ∧
     ∀ (k : Cfg), k.w = s.st.world → k.args = #[] → EnvD c.scopes env s k.regs →
       CodeAt (p.defs.getD f0.defIdx default).code k.pc seg → PrefL (pool ++ more) P → PrefA c'.vals V → ra'.max < k.regs.size →
       ∃ regs', Reach p (inj f0 rest k) (inj f0 rest { regs := regs', pc := k.pc + seg.length, args := #[], w := s'.st.world }) ∧
-        regs'.size = k.regs.size ∧ (∀ r, sc.ra.alloc r = true → regs'.getD r .nil = k.regs.getD r .nil) ∧ slotVal V regs' slot = v ∧
-        EnvD c'.scopes env' s' regs'
+        regs'.size = k.regs.size ∧ (∀ r, sc.ra.alloc r = true → regs'.getD r .nil = k.regs.getD r .nil) ∧
+        (dr = false → slotVal V regs' slot = v) ∧ EnvD c'.scopes env' s' regs'
 
 /-- the mapping cursor does not matter -/
 theorem Correct2.recur {G : String → Prop} {c c1 : CState} {q : Pos} {slot : JSlot} {sc : Scope} {rs : List Scope} {pool : List KConst}
     {ps : List (List KConst)} {env env' : Env} {s s' : SS} {v : Value}
-    (h : Correct2 p f0 rest V P G { c with cur := q } c1 slot sc rs pool ps env env' s s' v) :
-    Correct2 p f0 rest V P G c { c1 with cur := c.cur } slot sc rs pool ps env env' s s' v := by
+    {dr : Bool} (h : Correct2 p f0 rest V P G dr { c with cur := q } c1 slot sc rs pool ps env env' s s' v) :
+    Correct2 p f0 rest V P G dr c { c1 with cur := c.cur } slot sc rs pool ps env env' s s' v := by
   obtain ⟨ra', nsyms, more, seg, segm, hc, h2⟩ := h
   refine ⟨ra', nsyms, more, seg, segm, ?_, h2⟩
   conv => lhs; rw [hc]
+
+/-- a form whose value is known is in particular correct when its value is dropped -/
+theorem Correct2.weaken {G : String → Prop} {c c1 : CState} {slot : JSlot} {sc : Scope} {rs : List Scope} {pool : List KConst}
+    {ps : List (List KConst)} {env env' : Env} {s s' : SS} {v : Value} (dr : Bool)
+    (h : Correct2 p f0 rest V P G false c c1 slot sc rs pool ps env env' s s' v) :
+    Correct2 p f0 rest V P G dr c c1 slot sc rs pool ps env env' s s' v := by
+  obtain ⟨ra', nsyms, more, seg, segm, hc, a1, a2, a3, a4, a5, a6, a7, vm⟩ := h
+  refine ⟨ra', nsyms, more, seg, segm, hc, a1, a2, a3, a4, a5, a6, a7, ?_⟩
+  intro k h1 h2 h3 h4 h5 h6 h7
+  obtain ⟨regs', b1, b2, b3, b4, b5⟩ := vm k h1 h2 h3 h4 h5 h6 h7
+  exact ⟨regs', b1, b2, b3, fun _ => b4 rfl, b5⟩
 
 theorem cfg_eta (k : Cfg) (w : World) (hkw : k.w = w) (hka : k.args = #[]) :
     ({ regs := k.regs, pc := k.pc + ([] : List CI).length, args := #[], w := w } : Cfg) = k := by
@@ -157,19 +237,20 @@ theorem cfg_eta (k : Cfg) (w : World) (hkw : k.w = w) (hka : k.args = #[]) :
 theorem atom_const2 (FF : FloatFacts) (G : String → Prop) (c : CState) (w : Value) (hw : SimpleLit w) (sc : Scope) (rs : List Scope)
     (pool : List KConst) (ps : List (List KConst)) (hs : c.scopes = sc :: rs) (hp : c.pools = pool :: ps) (env : Env) (s : SS)
     (hE : EnvS G c.scopes env s.boxes.size sc.ra) :
-    Correct2 p f0 rest V P G c { (constSlot c w).2 with cur := c.cur } (constSlot c w).1 sc rs pool ps env env s s w := by
+    Correct2 p f0 rest V P G false c { (constSlot c w).2 with cur := c.cur } (constSlot c w).1 sc rs pool ps env env s s w := by
   obtain ⟨h1, h2, h3, h4⟩ := kOf_spec FF c w hw
   have hsc : ({ (constSlot c w).2 with cur := c.cur } : CState).scopes = c.scopes := by
     show (kOf c w).2.scopes = _
     rw [h1]
-  refine ⟨sc.ra, [], [], [], [], ?_, h2, fun _ h => h, Nat.le_refl _, Or.inl ⟨rfl, (kOf c w).1, rfl, h3⟩, PrefA.refl _, ?_, ?_⟩
+  refine ⟨sc.ra, [], [], [], [], ?_, h2, fun _ h => h, Nat.le_refl _, Or.inl ⟨rfl, (kOf c w).1, rfl, h3⟩, PrefA.refl _, ?_, ?_, ?_⟩
   · show ({ (kOf c w).2 with cur := c.cur } : CState) = _
     rw [h1]
     simp [hs, hp]
     rfl
   · rw [hsc]; exact hE
+  · exact NameFrame.of_lk (fun x => by rw [hsc]) rfl
   · intro k hkw hka hD _ _ hV _
-    refine ⟨k.regs, ?_, rfl, fun _ _ => rfl, ?_, ?_⟩
+    refine ⟨k.regs, ?_, rfl, fun _ _ => rfl, fun _ => ?_, ?_⟩
     · rw [cfg_eta k _ hkw hka]; exact Reach.refl _ _
     · show litOf V (kOf c w).1 = w
       rw [litOf_pref hV _ h3]; exact h4
@@ -179,15 +260,16 @@ theorem atom_const2 (FF : FloatFacts) (G : String → Prop) (c : CState) (w : Va
 theorem atom_local2 (G : String → Prop) (c : CState) (x : String) (sl : JSlot) (u : Bool) (sc : Scope) (rs : List Scope)
     (pool : List KConst) (ps : List (List KConst)) (hs : c.scopes = sc :: rs) (hp : c.pools = pool :: ps) (env : Env) (s : SS) (a : Nat)
     (hE : EnvS G c.scopes env s.boxes.size sc.ra) (hl : lk c.scopes x = some (sl, u, true)) (he : lookupEnv env x = some a) :
-    Correct2 p f0 rest V P G c c sl sc rs pool ps env env s s (readBox s a) := by
+    Correct2 p f0 rest V P G false c c sl sc rs pool ps env env s s (readBox s a) := by
   obtain ⟨_, hn, hc, r, a', hk, he', _, hal, hr⟩ := hE.found hl
   have haa : a' = a := by rw [he] at he'; exact (Option.some.inj he').symm
   subst haa
-  refine ⟨sc.ra, [], [], [], [], ?_, PrefA.refl _, fun _ h => h, Nat.le_refl _, Or.inr (Or.inl ⟨hc, hn, r, hk, hal, hr⟩), PrefA.refl _, hE, ?_⟩
+  refine ⟨sc.ra, [], [], [], [], ?_, PrefA.refl _, fun _ h => h, Nat.le_refl _, Or.inr (Or.inl ⟨hc, hn, r, hk, hal, hr⟩), PrefA.refl _, hE,
+    ⟨fun _ _ h => h, fun r' _ hk' _ hno => hno x sl u true hl hk'⟩, ?_⟩
   · simp [hs, hp]
     cases c; simp_all
   · intro k hkw hka hD _ _ _ _
-    refine ⟨k.regs, ?_, rfl, fun _ _ => rfl, ?_, hD⟩
+    refine ⟨k.regs, ?_, rfl, fun _ _ => rfl, fun _ => ?_, hD⟩
     · rw [cfg_eta k _ hkw hka]; exact Reach.refl _ _
     · simp only [slotVal, hk]; exact hD x sl u true r a' hl hk he
 
